@@ -12,7 +12,7 @@ RULE = ('real threads under a deterministic line-granularity scheduler (sys.sett
         'thread B parses on the same Licensing to completion and thread C constructs another Licensing and parses; then A resumes. '
         'The subsequent parse: on a Licensing that has already parsed one text, A parses another text (or the same) and is preempted '
         'before every k-th line while B parses the previous (or another) text. Construction meanwhile: A is preempted before every k-th '
-        'line of its first parse while another thread constructs a Licensing over 1200 keys never seen before; the index loaders (build_licensing, build_spdx_licensing over a small index) preempted before their k-th line while another thread parses a text with words that are not valid keys on a warm Licensing. '
+        'line of its first parse while another thread constructs a Licensing over 1200 keys never seen before; queries (key listings, validation of keys, dedup, is_equivalent) on nested expression objects (depths 12, 120, 330, 600) from two threads with two preemption points (counted from the first and from the last line of each call); the index loaders (build_licensing, build_spdx_licensing over a small index) preempted before their k-th line while another thread parses a text with words that are not valid keys on a warm Licensing. '
         'Spec: every result equals the result of the call run alone. Correspondence: the sequence of protocol steps the threads '
         'took (read shared / allocate / add / make_automaton / publish / use) is replayed on the Lean protocol model and the '
         'tokenizer each thread used (entries, finalised) must be the one the model says. non-trivial = the preemption falls inside '
@@ -161,7 +161,68 @@ class Prop(BaseProp):
             return Verdict('spec', case, 'the loading thread did not build the table of the index', impl=list(ts[0].result)[:2], tags=['loader'])
         return Verdict('ok', case, impl=got, nontrivial=True, tags=['loader'])
 
+    DEEP = [12, 120, 330, 600]     # nesting depths of the expression objects of the `deep` scenario (the last: more than the interpreter walks by default)
+
+    @staticmethod
+    def deep_text(n, tail):
+        return ''.join('a%d and (' % (i % 7) if i % 2 else 'b%d or (' % (i % 5) for i in range(n)) + tail + ')' * n
+
+    QUERIES = [('license_keys', lambda L, e: L.license_keys(e)), ('unknown_license_keys', lambda L, e: L.unknown_license_keys(e)),
+               ('validate_license_keys', lambda L, e: L.validate_license_keys(e)), ('primary_license_key', lambda L, e: L.primary_license_key(e)),
+               ('dedup+str', lambda L, e: str(L.dedup(e))[-40:]), ('is_equivalent', lambda L, e: L.is_equivalent(e, e))]
+
+    def eval_deep(self, drv, case, solo_cache={}):
+        """two queries on already parsed, deeply nested expression objects, on a warm shared Licensing: thread A runs k0 lines,
+        then thread B k1 lines, then A to completion, then B. Each returns what it returns alone - a list, or RecursionError for
+        a nesting the interpreter cannot walk - whatever per-process or per-instance setting the other call touches meanwhile."""
+        import sys
+        ti, (k0, k1), depth, qi = case['table'], case['ks'], case['depth'], case['query']
+        table, text0 = TABLES[ti]
+        qname, q = self.QUERIES[qi]
+        L = le.Licensing(impl.table_objs(table))
+        L.parse(text0)
+        ea, eb = L.parse(self.deep_text(depth, 'mit')), L.parse(self.deep_text(max(depth - 7, 1), 'gpl 2.0'))
+        limit = sys.getrecursionlimit()
+
+        def res(r):
+            return ['ok', r[1]] if r[0] == 'ok' else [r[0], r[1]]
+        key = ('deep', ti, depth, qi)
+        if key not in solo_cache:
+            sa = sched.run([lambda: q(L, ea)], lambda i, r, st: (r[0], BIG))[0][0]
+            sb = sched.run([lambda: q(L, eb)], lambda i, r, st: (r[0], BIG))[0][0]
+            solo_cache[key] = [res(sa.result), res(sb.result), sa.steps, sb.steps]
+        want = solo_cache[key][:2]
+        if case.get('from_end'):
+            # preemption points counted back from the last line of each call run alone
+            k0, k1 = max(0, solo_cache[key][2] - k0), max(0, solo_cache[key][3] - k1)
+
+        def sf(i, runnable, steps):
+            if 't0' in runnable and steps['t0'] < k0:
+                return ('t0', k0 - steps['t0'])
+            if 't1' in runnable and steps['t1'] < k1:
+                return ('t1', k1 - steps['t1'])
+            if 't0' in runnable:
+                return ('t0', BIG)
+            return ('t1', BIG)
+        try:
+            ts, abstract = sched.run([lambda: q(L, ea), lambda: q(L, eb)], sf)
+        except RuntimeError as e:
+            return Verdict('spec', case, str(e))
+        finally:
+            if sys.getrecursionlimit() != limit:
+                changed = sys.getrecursionlimit()
+                sys.setrecursionlimit(limit)
+                return Verdict('spec', case, 'a query left the interpreter-wide recursion limit changed (%d -> %d)' % (limit, changed), tags=['deep'])
+        got = [res(t.result) for t in ts]
+        if got != want:
+            return Verdict('spec', case, 'a query on a shared Licensing returns something else than when run alone (%s on nested expression objects)' % qname,
+                           impl=[g[:2] if g[0] != 'ok' else ['ok', str(g[1])[:60]] for g in got],
+                           model=[g[:2] if g[0] != 'ok' else ['ok', str(g[1])[:60]] for g in want], tags=['deep'])
+        return Verdict('ok', case, impl=got[0][0], nontrivial=True, tags=['deep', 'deep=%d:%s' % (depth, got[0][0])])
+
     def eval_case(self, drv, case, solo_cache={}):
+        if case.get('scn', 'first') == 'deep':
+            return self.eval_deep(drv, case)
         if case.get('scn', 'first') == 'loader':
             return self.eval_loader(drv, case)
         if case.get('scn', 'first') == 'heavy':
@@ -238,6 +299,16 @@ class Prop(BaseProp):
                     cases.append({'table': ti, 'ks': [k], 'scn': scn})
             for k in range(0, nsteps + 1):
                 cases.append({'table': ti, 'ks': [k], 'scn': 'heavy'})
+            # queries on deeply nested expression objects: all pairs of preemption points of two short calls (a sample in the quick tier)
+            if ti == 0:
+                for depth in self.DEEP:
+                    for qi in range(len(self.QUERIES)):
+                        pairs = [(a, b) for a in range(0, 14) for b in range(0, 14)]
+                        if tier != 'thorough':
+                            pairs = [p for j, p in enumerate(pairs) if (j + qi + depth) % 11 == 0]
+                        for a, b in pairs:
+                            cases.append({'table': ti, 'ks': [a, b], 'scn': 'deep', 'depth': depth, 'query': qi})
+                            cases.append({'table': ti, 'ks': [a, b], 'scn': 'deep', 'depth': depth, 'query': qi, 'from_end': True})
             # the index loaders, preempted before each of their lines (every third line in the quick tier)
             for which in ('spdx', 'scancode'):
                 build = le.build_spdx_licensing if which == 'spdx' else le.build_licensing
